@@ -538,9 +538,20 @@ def kw_values(idx, fi, call):
             return v.name
         return repr(v)
 
+    import copy as _copy
+
+    class _Subst(ast.NodeTransformer):
+        # single-assignment locals anywhere inside the expression stand for what was assigned to them
+        def visit_Name(self, n):
+            if isinstance(n.ctx, ast.Load):
+                r = resolve_local(fi, n, depth=1)
+                if r is not n:
+                    return self.visit(_copy.deepcopy(r))
+            return n
+
     for k in call.keywords:
         try:
-            v = it.eval(resolve_local(fi, k.value), frame)
+            v = it.eval(_Subst().visit(_copy.deepcopy(k.value)), frame)
         except (Undecidable, Raised):
             v = Residual(unparse(k.value))
         if k.arg:
